@@ -2481,7 +2481,7 @@ def main(
     if constants_inputs:
         for key, value in constants_inputs.items():
             if "_head_start" in key:
-                df_animal_stock_info.loc[country_code, key.strip("_start")] = value
+                df_animal_stock_info.loc[country_code, key.removesuffix("_start")] = value
 
     # read animal nutrition data
     df_animal_attributes = AnimalDataReader.read_animal_nutrition_data(attributes_csv)
